@@ -1,6 +1,6 @@
 /-
-`InvL`: the controller infers the completion of a task only from the notice of its LAST output (in index =
-declaration order), and never forgets an announcement. One more (small) tier of the base system's invariant.
+`InvL`: the controller infers the completion of a task only once the notices of ALL its outputs have been processed
+(in particular of the LAST one, in index = declaration order), and never forgets an announcement.
 Also: how `announced`, `doneC` and `inbox` move in one step (used by the non-atomic layer, Lemmas/CtrlN.lean).
 -/
 import EkwVerif.Lemmas.CtrlInvAll
@@ -12,12 +12,13 @@ def evDs : Event → Ds
   | .pubT _ ds => ds
   | .payload ds _ => ds
 
-/-- one event: `announced` grows by at most the event's dataset; `doneC` grows by at most the task whose last output it is -/
+/-- one event: `announced` grows by at most the event's dataset; `doneC` grows by at most the task of a worker's notice,
+and only when the notices of ALL outputs of that task have been processed -/
 theorem notifyEvent_ghosts (j : Job) (c c' : Ctl) (ev : Event) (hr : notifyEvent j c ev = .ok c') :
     (∀ ds, c'.announced ds = true → c.announced ds = true ∨ ds = evDs ev) ∧
     (∀ ds, c.announced ds = true → c'.announced ds = true) ∧
     (∀ t, c'.doneC t = true → c.doneC t = true ∨
-        (∃ w ds, ev = .pubW w ds ∧ ds.task = t ∧ j.isLast ds = true ∧ c'.announced ds = true)) ∧
+        (∃ w ds, ev = .pubW w ds ∧ ds.task = t ∧ ∀ k, k < j.nOut t → c'.published ⟨t, k⟩ = true)) ∧
     (∀ t, c.doneC t = true → c'.doneC t = true) := by
   cases ev with
   | payload ds v =>
@@ -35,61 +36,41 @@ theorem notifyEvent_ghosts (j : Job) (c c' : Ctl) (ev : Event) (hr : notifyEvent
       · subst hx; simp
       · rw [upd_other _ _ _ _ hx]; exact hd
   | pubW w ds =>
-    simp only [notifyEvent] at hr
-    have hA : ∀ d, (considerComputable (considerFetch j (markAvailable c w.host ds) ds w.host) ds).announced d =
-        (upd c.announced ds true) d := by
-      intro d; simp [markAvailable]
-    have hD : (considerComputable (considerFetch j (markAvailable c w.host ds) ds w.host) ds).doneC = c.doneC := by simp
-    split at hr
-    · rename_i hlast
-      split at hr
-      · cases hr
-      · rename_i c2 hci
-        have a2 := completeInputs_announced _ _ _ _ _ hci
-        have d2 := completeInputs_doneC _ _ _ _ _ hci
-        split at hr
-        · simp only [Except.ok.injEq] at hr; subst hr
-          simp only [evDs]
-          refine ⟨?_, ?_, ?_, ?_⟩
-          · intro d hd; rw [a2, hA] at hd; by_cases hx : d = ds
-            · exact Or.inr hx
-            · rw [upd_other _ _ _ _ hx] at hd; exact Or.inl hd
-          · intro d hd; rw [a2, hA]; by_cases hx : d = ds
-            · subst hx; simp
-            · rw [upd_other _ _ _ _ hx]; exact hd
-          · intro t ht
-            by_cases hx : t = ds.task
-            · right; refine ⟨w, ds, rfl, hx.symm, hlast, ?_⟩
-              rw [a2, hA]; simp
-            · left; rw [upd_other _ _ _ _ hx, d2, hD] at ht; exact ht
-          · intro t ht
-            by_cases hx : t = ds.task
-            · subst hx; simp
-            · rw [upd_other _ _ _ _ hx, d2, hD]; exact ht
-        · cases hr
-    · simp only [Except.ok.injEq] at hr; subst hr
-      simp only [evDs]
-      refine ⟨?_, ?_, fun t h => Or.inl (by rw [hD] at h; exact h), fun t h => by rw [hD]; exact h⟩
-      · intro d hd; rw [hA] at hd; by_cases hx : d = ds
-        · exact Or.inr hx
-        · rw [upd_other _ _ _ _ hx] at hd; exact Or.inl hd
-      · intro d hd; rw [hA]; by_cases hx : d = ds
+    obtain ⟨p1, p2, p3⟩ := notifyEvent_pubW_spec j c c' w ds hr
+    simp only [evDs]
+    refine ⟨?_, ?_, ?_, ?_⟩
+    · intro d hd; rw [p2] at hd; by_cases hx : d = ds
+      · exact Or.inr hx
+      · rw [upd_other _ _ _ _ hx] at hd; exact Or.inl hd
+    · intro d hd; rw [p2]; by_cases hx : d = ds
+      · subst hx; simp
+      · rw [upd_other _ _ _ _ hx]; exact hd
+    · intro t ht
+      rcases p3 with ⟨a1, a2⟩ | ⟨_, a2⟩
+      · by_cases hx : t = ds.task
+        · right; subst hx; exact ⟨w, ds, rfl, rfl, by rw [p1]; exact a1⟩
+        · left; rw [a2, upd_other _ _ _ _ hx] at ht; exact ht
+      · left; rw [a2] at ht; exact ht
+    · intro t ht
+      rcases p3 with ⟨_, a2⟩ | ⟨_, a2⟩
+      · rw [a2]; by_cases hx : t = ds.task
         · subst hx; simp
-        · rw [upd_other _ _ _ _ hx]; exact hd
+        · rw [upd_other _ _ _ _ hx]; exact ht
+      · rw [a2]; exact ht
 
 /-- how the ghosts move in one step of the base system -/
 theorem step_ghosts (f : Sem) (j : Job) (cl : Cluster) (s s' : Sys) (st : Step) (hs : step f j cl s st = some s') :
     (∀ ds, s'.ctl.announced ds = true → s.ctl.announced ds = true ∨
         (st = .notify1 ∧ ∃ ev rest, s.inbox = ev :: rest ∧ ds = evDs ev ∧ (∀ w d, ev ≠ .payload d w))) ∧
     (∀ ds, s.ctl.announced ds = true → s'.ctl.announced ds = true) ∧
-    (∀ t, s'.ctl.doneC t = true → s.ctl.doneC t = true ∨ ∃ ds, ds.task = t ∧ j.isLast ds = true ∧ s'.ctl.announced ds = true) ∧
+    (∀ t, s'.ctl.doneC t = true → s.ctl.doneC t = true ∨ ∀ k, k < j.nOut t → s'.ctl.published ⟨t, k⟩ = true) ∧
     (∀ t, s.ctl.doneC t = true → s'.ctl.doneC t = true) ∧
     (∀ ev, ev ∈ s'.inbox → ev ∈ s.inbox ∨ ∃ evs, st = .recv evs ∧ ev ∈ evs) := by
   have same : ∀ (s s' : Sys), s'.ctl.announced = s.ctl.announced → s'.ctl.doneC = s.ctl.doneC → s'.inbox = s.inbox →
       (∀ ds, s'.ctl.announced ds = true → s.ctl.announced ds = true ∨
         (st = .notify1 ∧ ∃ ev rest, s.inbox = ev :: rest ∧ ds = evDs ev ∧ (∀ w d, ev ≠ .payload d w))) ∧
       (∀ ds, s.ctl.announced ds = true → s'.ctl.announced ds = true) ∧
-      (∀ t, s'.ctl.doneC t = true → s.ctl.doneC t = true ∨ ∃ ds, ds.task = t ∧ j.isLast ds = true ∧ s'.ctl.announced ds = true) ∧
+      (∀ t, s'.ctl.doneC t = true → s.ctl.doneC t = true ∨ ∀ k, k < j.nOut t → s'.ctl.published ⟨t, k⟩ = true) ∧
       (∀ t, s.ctl.doneC t = true → s'.ctl.doneC t = true) ∧
       (∀ ev, ev ∈ s'.inbox → ev ∈ s.inbox ∨ ∃ evs, st = .recv evs ∧ ev ∈ evs) := by
     intro s s' ha hd hi
@@ -174,9 +155,9 @@ theorem step_ghosts (f : Sem) (j : Job) (cl : Cluster) (s s' : Sys) (st : Step) 
             exact Or.inl h
           · exact Or.inr ⟨rfl, ev, rest, hin, h', fun w d he => hp ⟨w, d, he⟩⟩
       · intro t h
-        rcases g3 t h with h' | ⟨w, ds, _, h1, h2, h3⟩
+        rcases g3 t h with h' | ⟨w, ds, _, _, h3⟩
         · exact Or.inl h'
-        · exact Or.inr ⟨ds, h1, h2, h3⟩
+        · exact Or.inr h3
       · intro e he; left; rw [hin]; exact List.mem_cons_of_mem _ he
   | endNotify => simp only [step] at hs; split at hs; · cases hs
                  cases hs; exact same _ _ rfl rfl rfl
@@ -187,29 +168,23 @@ theorem step_ghosts (f : Sem) (j : Job) (cl : Cluster) (s s' : Sys) (st : Step) 
     | none => simp [he] at hs
     | some e => simp only [he, Option.map_some, Option.some.injEq] at hs; subst hs; exact same _ _ rfl rfl rfl
 
-def InvL (j : Job) (s : Sys) : Prop := ∀ t, s.ctl.doneC t = true → s.ctl.announced ⟨t, j.nOut t - 1⟩ = true
+/-- a task whose completion was seen has had the notices of ALL its outputs processed: every output announced -/
+def InvL (j : Job) (s : Sys) : Prop := ∀ t, s.ctl.doneC t = true → ∀ k, k < j.nOut t → s.ctl.announced ⟨t, k⟩ = true
 
-theorem invL_init (j : Job) (cl : Cluster) : InvL j (Sys.init j cl) := by
-  intro t h; simp [Sys.init, initCtl] at h
+theorem invL_of_invAll (f : Sem) (j : Job) (cl : Cluster) (s : Sys) (h : InvAll f j cl s) : InvL j s := by
+  intro t ht k hk
+  have hlen := (h.h2.ran_disp t (h.h2.done_ran t ht)).2
+  exact h.hP.pub_announced _ ((h.hP.done_iff t hlen).mp ht k hk)
 
-theorem isLast_eq (j : Job) (ds : Ds) (h : j.isLast ds = true) : ds = ⟨ds.task, j.nOut ds.task - 1⟩ := by
-  unfold Job.isLast at h
-  have : ds.out + 1 = j.nOut ds.task := by simpa using h
-  cases ds with
-  | mk t o => simp only [Ds.mk.injEq, true_and]; simp only at this; omega
+theorem invL_reachable (f : Sem) (j : Job) (cl : Cluster) (wf : WF j cl) (s : Sys) (hr : Reachable f j cl s) : InvL j s :=
+  invL_of_invAll f j cl s (invAll_reachable f j cl wf s hr)
 
-theorem invL_step (f : Sem) (j : Job) (cl : Cluster) (s s' : Sys) (st : Step) (h : InvL j s)
-    (hs : step f j cl s st = some s') : InvL j s' := by
-  obtain ⟨_, g2, g3, _, _⟩ := step_ghosts f j cl s s' st hs
-  intro t ht
-  rcases g3 t ht with h' | ⟨ds, h1, h2, h3⟩
-  · exact g2 _ (h t h')
-  · have := isLast_eq j ds h2
-    rw [h1] at this; rw [← this]; exact h3
-
-theorem invL_reachable (f : Sem) (j : Job) (cl : Cluster) (s : Sys) (hr : Reachable f j cl s) : InvL j s := by
-  induction hr with
-  | init => exact invL_init j cl
-  | step s s' st _ hs ih => exact invL_step f j cl s s' st ih hs
+/-- in particular the LAST output (in index = declaration order) has been announced -/
+theorem invL_last (f : Sem) (j : Job) (cl : Cluster) (wf : WF j cl) (s : Sys) (hr : Reachable f j cl s) (t : Task)
+    (ht : s.ctl.doneC t = true) : s.ctl.announced ⟨t, j.nOut t - 1⟩ = true := by
+  have h := invAll_reachable f j cl wf s hr
+  have hlen := (h.h2.ran_disp t (h.h2.done_ran t ht)).2
+  have := wf.nout t hlen
+  exact invL_reachable f j cl wf s hr t ht (j.nOut t - 1) (by omega)
 
 end EkwVerif.Ctrl
